@@ -32,7 +32,7 @@ theorem fromDict_toDict_norm (dt : Data) (s : Store) (h : WFd dt s) :
       have hc0 : ¬ c = 0 := fun e => h0 (e ▸ hc)
       rw [ch_edgesOf c f 0 h0 h.idxNodup]; simp [hc0]
     let d : TDict := toDict ⟨f, rootR, ni, nir, data, last⟩
-    have hb := buildSF_ok dt d f ((edgesOf 0 f).length + 1) (by rw [edgesOf_length]; omega)
+    have hb := buildSF_ok dt d f ((edgesOf 0 f).length + 1) (by rw [edgesOf_length_c15]; omega)
       h.idxNodup hch (fun m hm => ⟨h.mapRev m hm, h.mapFwd m hm, h.dataOf m hm, h.dpsNodup m hm⟩)
     have hempty : (edgesOf 0 f).isEmpty = false := by rw [edgesOf_isEmpty]; exact hnil
     have hroots' : List.map (fun x => x.2) (List.filter (fun x => decide (x.1 = 0)) (edgesOf 0 f)) = rootIdxs f := hroots
